@@ -441,7 +441,22 @@ func randRScenario(r *rand.Rand) *RScenario {
 	n := 8 + r.Intn(14)
 	for i := 0; i < n; i++ {
 		c := cids[r.Intn(len(cids))]
-		switch k := r.Intn(10); {
+		// state-driven choice: build a roster, commit it, then spend most steps on signature matrices over it
+		// (without committed REP numbers every matrix verifies vacuously)
+		k := r.Intn(10)
+		switch hasPend, hasComm := len(m.pend[c][0]) > 0, len(m.reps[c]) > 0; {
+		case hasComm && k < 7:
+			k = 9 // verify / submit
+		case hasComm && k == 7:
+			k = 4 // re-commit
+		case hasComm:
+			k = 0 // add
+		case hasPend && k < 5:
+			k = 4
+		case k < 9:
+			k = 0
+		}
+		switch {
 		case k < 3:
 			v := r.Intn(rMaxVec + 1)
 			if r.Intn(4) > 0 { // mostly contiguous
